@@ -35,6 +35,7 @@ fn emit(o: &mut Out, flags: u32, nowrap: bool, prev: u32, ts: u64, recs: &[([u8;
     let mut pks = vec![]; valid_pks(t, &mut pks);
     let pk_s = if pks.is_empty() { "-".to_string() } else { pks.iter().map(hex::encode).collect::<Vec<_>>().join(",") };
     let line = format!("C03 {} {} {} {} {} {} {}", flags, nowrap as u8, prev, ts, rs, pk_s, hex::encode(&bytes));
+    o.begin(&line);
     let b2 = bytes.clone(); let r2 = recs.to_vec();
     let res = std::panic::catch_unwind(move || run_one(flags, nowrap, prev, ts, &r2, &b2)).unwrap_or("PANIC".to_string());
     o.case(&line, &res);
